@@ -3,6 +3,7 @@
 #include "PlanGen.hh"
 
 #include <cmath>
+#include <cstdlib>
 #include <iostream>
 #include <set>
 
@@ -152,7 +153,21 @@ GenCtx gen_problem_config(CheckSpec const& spec, Rng const& root, GenOpts const&
     double L = gi.scale;
 
     // ---- particles ----
-    bool with_positron = rph.coin(0.7);
+    // Real-physics mode (a third of the problems): on top of the stub
+    // processes the problem gets REAL celeritas models in the stepping loop --
+    // Klein-Nishina for gammas, Moller-Bhabha for e-/e+ (cross section zero up
+    // to a knot above twice the electron production cut, as an importer's
+    // table would be) and the real positron annihilation process with its
+    // on-the-fly cross section (also at rest).  Drawn from its own stream so
+    // the other two thirds of the plan space are unchanged.
+    Rng rreal = root.sub("real");
+    bool real_phys = rreal.coin(0.34);
+    if (char const* e = std::getenv("VERIF_REAL"))
+        real_phys = e[0] == '1';
+    // C01 only, a sixth of the real-physics plans: ionisation without the
+    // integral approach (see the recorded finding below)
+    bool real_nonintegral = real_phys && spec.property == "C01" && rreal.coin(0.17);
+    bool with_positron = rph.coin(0.7) || real_phys;
     std::vector<std::string> particles = {"gamma", "electron"};
     if (with_positron)
         particles.push_back("positron");
@@ -184,6 +199,12 @@ GenCtx gen_problem_config(CheckSpec const& spec, Rng const& root, GenOpts const&
         // electron ends by range.  Positrons always keep an at-rest process
         // (a physics list without e+ annihilation is not a valid problem).
         bool zero_low_xs = pname == "electron" && charged_eloss && rph.coin(0.5);
+        if (real_nonintegral)
+        {
+            // keep an at-rest process so that the zero-energy electron emitted
+            // in the recorded regime ends at once instead of multiplying
+            zero_low_xs = false;
+        }
         for (int ip = 0; ip < nproc; ++ip)
         {
             json pr;
@@ -251,6 +272,62 @@ GenCtx gen_problem_config(CheckSpec const& spec, Rng const& root, GenOpts const&
             arr.push_back(rph.coin(0.2) ? 0.0 : e_hi * rph.log_uniform(1e-5, 2.0));
         cut[pname] = arr;
     }
+    if (real_phys)
+    {
+        // Electron production cut first (not below 3e-3 of the primary energy
+        // scale: the stub tables do not scale the ionisation cross section with
+        // 1/cut as real tables do, so a tiny cut would mean 1e5+ deltas per
+        // primary), then the first knot above twice the cut.
+        int nk = 4 + (int)rreal.below(8);
+        double ecut = e_hi * rreal.log_uniform(3e-3, 0.3);
+        auto knot = [&](int k) { return emin * std::pow(emax / emin, double(k) / (nk - 1)); };
+        int kz = 0;
+        while (kz < nk - 2 && knot(kz) * 0.999 < 2 * ecut)
+            ++kz;
+        if (knot(kz) * 0.999 < 2 * ecut)
+            ecut = 0.5 * knot(kz) * rreal.uniform(0.5, 0.999);
+        json arr = json::array();
+        for (unsigned m = 0; m < nmat; ++m)
+            arr.push_back(ecut);
+        cut["electron"] = arr;
+        auto add_real = [&](char const* label, char const* particle, char const* kind, int zero_to) {
+            json pr;
+            pr["label"] = label;
+            pr["particle"] = particle;
+            pr["real"] = kind;
+            pr["emin"] = emin;
+            pr["emax"] = emax;
+            double mfp = L * rreal.log_uniform(0.3, 3.0);
+            json xs = json::array();
+            for (unsigned m = 0; m < nmat; ++m)
+            {
+                auto t = random_table(rreal, nk, 1 / mfp * rreal.log_uniform(0.5, 2), 2.0);
+                for (int i = 0; i <= zero_to; ++i)
+                    t[i] = 0;
+                xs.push_back(t);
+            }
+            pr["xs"] = xs;
+            pr["eloss"] = nullptr;
+            // Ionisation uses the integral approach as the real process does by
+            // default.  Without it a track that stops inside the step is forced
+            // into a discrete interaction chosen from the PRE-step cross
+            // sections, so Moller-Bhabha is invoked at zero energy (recorded
+            // finding C01 ...forced-at-rest-by-pre-step-xs); that regime stays
+            // reachable in a sixth of the real-physics plans of C01 only.
+            pr["integral"] = charged_eloss && std::string(particle) != "gamma" && !real_nonintegral;
+            procs.push_back(pr);
+        };
+        add_real("real-compton", "gamma", "klein_nishina", -1);
+        add_real("real-ioni", "electron", "moller_bhabha", kz);
+        json an;
+        an["label"] = "real-annihil";
+        an["particle"] = "positron";
+        an["real"] = "eplus_annihilation";
+        procs.push_back(an);
+        problem["procs"] = procs;
+        problem["real_physics"] = true;
+    }
+    bool real_keep_integral = real_phys && !real_nonintegral;
     problem["cut"] = cut;
 
     json opt;
@@ -260,7 +337,7 @@ GenCtx gen_problem_config(CheckSpec const& spec, Rng const& root, GenOpts const&
     opt["max_step_over_range"] = rph.uniform(0.05, 1.0);
     opt["fixed_step_limiter"] = rph.coin(0.15) ? L * rph.log_uniform(1e-2, 1.0) : 0.0;
     opt["min_eprime_over_e"] = rph.uniform(0.5, 0.95);
-    opt["disable_integral_xs"] = rph.coin(0.1);
+    opt["disable_integral_xs"] = rph.coin(0.1) && !real_keep_integral;
     problem["options"] = opt;
 
     json along;
@@ -392,7 +469,7 @@ GenCtx gen_problem_config(CheckSpec const& spec, Rng const& root, GenOpts const&
         problem["options"]["fixed_step_limiter"] = lim;
         for (auto& pr : problem["procs"])
         {
-            if (pr["particle"] == "gamma")
+            if (pr["particle"] == "gamma" || !pr.contains("xs"))
                 continue;
             for (auto& row : pr["xs"])
                 for (auto& x : row)
